@@ -13,18 +13,19 @@ CONSTANTS
   ZDCode = {30309,120703,3003705}
   Delivery = "by_prior"
   Passes = "user_table"
-  QNum = {0,2,7,11,12,13,15,24,112,1012,3012}
+  QNum = {0,7,12,15,112,1012}
   QShift = 12
-  QDen = {1,4,8}
-  ENum = {0,3,6,10,12,14,18}
+  QDen = {4,8}
+  ENum = {0,6,14,18}
   EShift = 12
-  SNum = {1,3,10}
+  SNum = {3,10}
   SDen = {4}
   Conts = {"tuple","list","ndarray","ndarray_readonly"}
   Hows = {"direct","text"}
   Depth = 10
   Export = TRUE
-  SetWeight = 3
+  SetWeight = 5
+  RareWeight = 250
   Setter = "rebuilds"
 INVARIANT ObjectInv
 CONSTRAINT Bound
